@@ -1,31 +1,43 @@
 """
 Native bounded stand-in for the C01 composition (tree construction + pruned
-visit + branch stack + macro table) against a flat ISO C 6.10.1 conditional
-stack, and refuter for the associator contract.  Bounded, never counted as
-proved.
+visit + branch stack + macro table + #if evaluation of simple conditions)
+against the reference preprocessor native/refpp.py.  Every program is analysed
+for five platforms at once (X undefined, -DX=0, -DX=1, -DX=3, -DX=) in ONE
+finder.find run, so leakage between platforms (C08) shows up too.
+Bounded, never counted as proved.
 """
-import os
-import shutil
-import tempfile
+import itertools
+import random
 
-from codebasin import CodeBase, finder
-from codebasin.preprocessor import CodeNode
+from native import refpp
+from native.refpp import L
+from native import sysrun
 
-KINDS = ["if1", "if0", "ifdefX", "ifndefX", "elif1", "elif0", "elifdefX", "elifbad", "else", "endif",
-         "defX", "undefX", "code"]
-TEXT = {"if1": "#if 1", "if0": "#if 0", "ifdefX": "#ifdef X", "ifndefX": "#ifndef X", "elif1": "#elif 1",
-        "elif0": "#elif 0", "elifdefX": "#elif defined(X)", "elifbad": "#elif (", "else": "#else",
-        "endif": "#endif", "defX": "#define X", "undefX": "#undef X", "code": "int v;"}
-OPEN = {"if1", "if0", "ifdefX", "ifndefX"}
-CONT = {"elif1", "elif0", "elifdefX", "elifbad", "else"}
+X_VALUES = [None, "0", "1", "3", ""]
+XEQ = ("or", ("eq", ("id", "X"), ("num", 2)), ("eq", ("id", "X"), ("num", 3)))
+RAW_BAD = ("bad",)             # renders as "(": a syntax error wherever a real preprocessor evaluates it
+
+KINDS = {
+    "if1": L("if", expr=("num", 1)), "if0": L("if", expr=("num", 0)),
+    "ifX": L("if", expr=("id", "X")), "ifXeq": L("if", expr=XEQ),
+    "ifdefX": L("ifdef", name="X"), "ifndefX": L("ifndef", name="X"),
+    "elif1": L("elif", expr=("num", 1)), "elif0": L("elif", expr=("num", 0)),
+    "elifX": L("elif", expr=("id", "X")), "elifdefX": L("elif", expr=("defined", "X")),
+    "elifbad": L("elif", expr=RAW_BAD, bad=True),
+    "else": L("else"), "endif": L("endif"),
+    "defX1": L("define", name="X", value="1"), "defX3": L("define", name="X", value="3"),
+    "undefX": L("undef", name="X"), "code": L("code"),
+}
+OPEN = {"if1", "if0", "ifX", "ifXeq", "ifdefX", "ifndefX"}
+CONT = {"elif1", "elif0", "elifX", "elifdefX", "elifbad", "else"}
+SMALL = ["if1", "if0", "ifX", "ifdefX", "elif1", "elif0", "elifX", "elifbad", "else", "endif", "defX1", "undefX", "code"]
 
 
 def sequences(maxlen, kinds):
-    """all well-nested sequences (every chain closed, #else last in its chain)"""
     out = []
 
     def go(seq, stack):
-        if len(seq) <= maxlen and not stack and seq:
+        if seq and not stack:
             out.append(list(seq))
         if len(seq) == maxlen:
             return
@@ -40,103 +52,112 @@ def sequences(maxlen, kinds):
             elif k == "endif":
                 if stack:
                     go(seq + [k], stack[:-1])
-            else:
-                if room >= 1 + len(stack):
-                    go(seq + [k], stack)
+            elif room >= 1 + len(stack):
+                go(seq + [k], stack)
     go([], [])
     return out
 
 
-def reference(seq, x_defined):
-    """flat conditional stack: -> (set of 1-based used lines, valid?)"""
-    used = set()
-    defined = bool(x_defined)
-    stack = []       # entries: [parent_live, taken_already, current_branch_live]
-    for ln, k in enumerate(seq, start=1):
-        live = all(e[2] for e in stack)
-        if k in OPEN:
-            if live:
-                used.add(ln)
-                cond = {"if1": True, "if0": False, "ifdefX": defined, "ifndefX": not defined}[k]
-                stack.append([True, cond, cond])
-            else:
-                stack.append([False, False, False])
-        elif k in CONT:
-            e = stack[-1]
-            if e[0]:
-                used.add(ln)
-                if e[1]:
-                    e[2] = False
-                else:
-                    if k == "elifbad":
-                        return None, False          # a real preprocessor diagnoses it
-                    cond = {"elif1": True, "elif0": False, "elifdefX": defined, "else": True}[k]
-                    e[1] = e[2] = cond
-        elif k == "endif":
-            e = stack.pop()
-            if e[0]:
-                used.add(ln)
-        else:
-            if live:
-                used.add(ln)
-                if k == "defX":
-                    defined = True
-                elif k == "undefX":
-                    defined = False
-    return used, True
+def chain_programs(rng, count):
+    """nested chains of depth 2 with code in every branch (the shapes where a stale
+    branch stack or a mis-parented node shows)"""
+    conds = ["1", "0", "X"]
+
+    def chain(depth):
+        seq = ["if" + rng.choice(conds)]
+        seq += body(depth)
+        for _ in range(rng.choice([0, 0, 1, 2])):
+            seq += ["elif" + rng.choice(conds)] + body(depth)
+        if rng.random() < 0.6:
+            seq += ["else"] + body(depth)
+        return seq + ["endif"]
+
+    def body(depth):
+        if depth < 2 and rng.random() < 0.5:
+            return chain(depth + 1) + (["code"] if rng.random() < 0.7 else [])
+        return rng.choice([["code"], ["code", "defX1"], ["undefX", "code"], []])
+    for _ in range(count):
+        yield chain(0) + ["code"]
 
 
 class Composition:
     proved = False
-    role = ("bounded stand-in for the C01 composition (real tree build + associate vs flat conditional stack); "
-            "also the refuter for the associator / macro-table contracts")
+    role = ("bounded stand-in for the C01 composition (real tree build + associate + #if evaluation vs the reference "
+            "preprocessor); refuter for the associator / macro-table contracts")
 
     def __init__(self):
-        self.dir = None
+        self.sb = None
 
     def bound(self, tier):
-        n = 5 if tier == "quick" else 7
-        return f"every well-nested sequence of <= {n} lines over {len(KINDS)} directive kinds, X predefined or not"
+        if tier == "quick":
+            return ("every well-nested program of <= 4 lines over 13 directive kinds + 1500 seeded random nested chains "
+                    "(depth <= 3) + 1500 random programs of 5..8 lines over 17 kinds; each for 5 platforms in one run, two platform orders")
+        return ("every well-nested program of <= 6 lines over 13 kinds and <= 5 lines over 17 kinds + 20000 random nested "
+                "chains + 20000 random programs of 6..9 lines; 5 platforms per run, two platform orders")
 
     def inputs(self, tier, seed):
-        n = 5 if tier == "quick" else 7
-        for seq in sequences(n, KINDS):
-            for x in (False, True):
-                yield {"seq": seq, "x": x}
+        rng = random.Random(seed)
+        if tier == "quick":
+            for s in sequences(4, SMALL):
+                yield {"seq": s, "rev": False}
+            for s in chain_programs(rng, 1500):
+                yield {"seq": s, "rev": rng.random() < 0.5}
+            pool = sequences(5, list(KINDS))
+            for s in rng.sample(pool, min(1500, len(pool))):
+                yield {"seq": s, "rev": rng.random() < 0.5}
+        else:
+            for s in sequences(6, SMALL):
+                yield {"seq": s, "rev": False}
+            for s in sequences(5, list(KINDS)):
+                yield {"seq": s, "rev": True}
+            for s in chain_programs(rng, 20000):
+                yield {"seq": s, "rev": rng.random() < 0.5}
 
     def nontrivial(self, inp):
         return any(k in OPEN for k in inp["seq"]) and any(k in CONT for k in inp["seq"])
 
-    def run(self, seq, x):
-        if self.dir is None:
-            self.dir = tempfile.mkdtemp(prefix="cbi_c01_")
-            import atexit
-            atexit.register(shutil.rmtree, self.dir, True)
-        path = os.path.join(self.dir, "t.c")
-        with open(path, "w") as fh:
-            fh.write("\n".join(TEXT[k] for k in seq) + "\n")
-        cb = CodeBase(self.dir)
-        cfg = {"p": [{"file": path, "defines": ["X"] if x else [], "include_paths": [], "include_files": []}]}
-        state = finder.find(self.dir, cb, cfg)
-        tree, assoc = state.get_tree(path), state.get_map(path)
-        used = set()
-        for node in tree.walk():
-            if isinstance(node, CodeNode) and assoc[node]:
-                used.update(node.lines)
-        return used
-
     def check(self, inp):
-        exp, valid = reference(inp["seq"], inp["x"])
-        if not valid:
+        if self.sb is None:
+            self.sb = sysrun.Sandbox("cbi_c01_")
+        sb = self.sb
+        lines = [KINDS[k] for k in inp["seq"]]
+        files = {"t.c": lines}
+        sb.write(files)
+        plats = list(enumerate(X_VALUES))
+        if inp.get("rev"):
+            plats.reverse()
+        cfg = {}
+        for i, xv in plats:
+            defs = [] if xv is None else ["X=" + xv]
+            cfg[f"p{i}"] = [sysrun.entry(sb, "t.c", defs)]
+        # reference, per platform (an invalid program for a platform drops that platform)
+        expected = {}
+        for name, entries in list(cfg.items()):
+            try:
+                expected[name] = sysrun.ref_used(sb, files, {name: entries})[name][0]
+            except refpp.Invalid:
+                del cfg[name]
+        if not cfg:
             return None
         try:
-            obs = self.run(inp["seq"], inp["x"])
+            _, state = sysrun.real_find(sb.root, cfg)
+            used = sysrun.real_used(state)
         except Exception as e:      # noqa: BLE001
             kl = "elif-evaluated-after-taken-branch" if "elifbad" in inp["seq"] else "analysis-fails"
-            return {"expected": sorted(exp), "observed": f"raised {type(e).__name__}: {e}", "klass": "composition:" + kl}
-        if obs != exp:
-            return {"expected": sorted(exp), "observed": sorted(obs), "klass": "composition:wrong-lines"}
+            return {"expected": "no failure", "observed": f"raised {type(e).__name__}: {e}", "klass": "composition:" + kl,
+                    "platforms": sorted(cfg)}
+        for name in cfg:
+            obs = used.get(name, set())
+            if obs != expected[name]:
+                return {"expected": sysrun.rel_used(sb, expected[name]), "observed": sysrun.rel_used(sb, obs),
+                        "platform": name, "defines": cfg[name][0]["defines"], "klass": "composition:wrong-lines"}
         return None
+
+    def encode(self, inp):
+        return {"seq": inp["seq"], "rev": bool(inp.get("rev")), "text": [refpp.render_line(KINDS[k]) for k in inp["seq"]]}
+
+    def decode(self, j):
+        return {"seq": j["seq"], "rev": j.get("rev", False)}
 
 
 _comp = Composition()
